@@ -202,6 +202,9 @@ SARGS = {
     # keyword values that are dicts filled in different orders: the same key
     11: ((), {"style": {"colour": "red", "width": 2}}),
     12: ((), {"style": dict([("width", 2), ("colour", "red")])}),
+    # a call with a keyword, and a keyword-free call whose two positional arguments LOOK like its key
+    13: ((1,), {"a": 2}),
+    14: (((1,), '{"a": 2}'), {}),
 }
 
 
@@ -944,6 +947,14 @@ class Real:
                     val = (i % 7, val)
             elif spec[0] == "bound":
                 val = self.hook_of(self.pv(spec[1]))
+            elif spec[0] == "clos":
+                # a local closure (pickled by value) whose cell holds an importable CLASS (pickled by reference)
+                def mk(X):
+                    def excluding(e, v=None):
+                        return not isinstance(e, X)
+                    return excluding
+                from edgegraph.structure import UnDirectedEdge as _U, DirectedEdge as _D
+                val = mk([_U, _D, Vertex][int(spec[1]) % 3])
             elif spec[0] == "ghost":
                 # a function pickled BY VALUE together with its globals (its module cannot be imported by name)
                 val = getattr(_ghost_module(), ["gf", "lone", "helper"][int(spec[1]) % 3])
